@@ -1147,6 +1147,7 @@ func driveC14(t *testing.T, out *vEmitter) {
 		}
 	}
 	vC14GenericProvider(t, out)
+	vC14EmptyEmailProviders(t, out)
 	// model correspondence for the three paths under provider-side faults (token absent / profile failing)
 	vC14ModelCases(t, out)
 }
@@ -1372,6 +1373,125 @@ func vC14GenericProvider(t *testing.T, out *vEmitter) {
 		}
 	}
 	setAccount(kinds[0])
+}
+
+// vC14EmptyEmailProviders: providers that report "the profile answer held no usable e-mail" by leaving the session's e-mail
+// empty (GitHub /user/emails, Bitbucket /2.0/user/emails) under every e-mail-domain configuration, the wildcard included:
+// a well-formed answer with the fields missing creates no session.
+func vC14EmptyEmailProviders(t *testing.T, out *vEmitter) {
+	type prov struct {
+		name      string
+		conf      func(pr *options.Provider)
+		emailPath string
+		okBody    string
+		bad       map[string]string
+		others    map[string]string
+	}
+	provs := []prov{
+		{"github", func(pr *options.Provider) {
+			pr.Type = "github"
+			pr.LoginURL = vIssuer + "/gh/authorize"
+			pr.RedeemURL = vIssuer + "/gh/token"
+			pr.ValidateURL = vIssuer + "/gh"
+		}, "/gh/user/emails", `[{"email":"user@example.com","primary":true,"verified":true}]`,
+			map[string]string{
+				"empty-list":        `[]`,
+				"missing-verified":  `[{"email":"user@example.com","primary":true}]`,
+				"missing-primary":   `[{"email":"user@example.com","verified":true}]`,
+				"missing-email":     `[{"primary":true,"verified":true}]`,
+				"only-unverified":   `[{"email":"user@example.com","primary":true,"verified":false},{"email":"b@example.com","primary":false,"verified":true}]`,
+				"null":              `null`,
+				"list-of-empty-obj": `[{}]`,
+			},
+			map[string]string{"/gh/user": `{"login":"dev","email":""}`, "/gh/user/orgs": `[]`, "/gh/user/teams": `[]`, "/gh": `{}`}},
+		{"bitbucket", func(pr *options.Provider) {
+			pr.Type = "bitbucket"
+			pr.LoginURL = vIssuer + "/bb/authorize"
+			pr.RedeemURL = vIssuer + "/bb/token"
+			pr.ValidateURL = vIssuer + "/bb/2.0/user/emails"
+		}, "/bb/2.0/user/emails", `{"values":[{"email":"user@example.com","is_primary":true}]}`,
+			map[string]string{
+				"empty-list":      `{"values":[]}`,
+				"missing-primary": `{"values":[{"email":"user@example.com"}]}`,
+				"missing-email":   `{"values":[{"is_primary":true}]}`,
+				"missing-values":  `{}`,
+				"null":            `null`,
+				"not-primary":     `{"values":[{"email":"user@example.com","is_primary":false}]}`,
+			}, nil},
+	}
+	for _, pv := range provs {
+		for _, domains := range [][]string{{"*"}, {"example.com"}, {"*", "example.com"}} {
+			pv, domains := pv, domains
+			e := vTryNewEnv(t, vEnvCfg{mod: func(o *options.Options) {
+				pr := &o.Providers[0]
+				pr.ID = pv.name + "=verif"
+				pr.ClientID = clientID
+				pr.ClientSecret = clientSecret
+				pv.conf(pr)
+				o.EmailDomains = domains
+			}})
+			if e == nil {
+				out.Stat("empty_email_config_rejected", 1)
+				continue
+			}
+			tokenPath := "/" + strings.Split(pv.emailPath, "/")[1] + "/token"
+			e.idp.onPath[tokenPath] = func(*http.Request) (int, string, string, error) {
+				return 200, "application/json", `{"access_token":"at-empty-email-0123456789","token_type":"bearer"}`, nil
+			}
+			for pth, body := range pv.others {
+				body := body
+				e.idp.onPath[pth] = func(*http.Request) (int, string, string, error) { return 200, "application/json", body, nil }
+			}
+			labels := []string{"ok"}
+			for k := range pv.bad {
+				labels = append(labels, k)
+			}
+			sort.Strings(labels)
+			for _, label := range labels {
+				body := pv.okBody
+				if label != "ok" {
+					body = pv.bad[label]
+				}
+				e.idp.onPath[pv.emailPath] = func(*http.Request) (int, string, string, error) { return 200, "application/json", body, nil }
+				b := e.newBrowser("https://app.example.com")
+				l := b.start("/")
+				cb := b.callback(l.State, "code")
+				issued := e.sessionCookieSet(cb)
+				out.Obs("idp-fault/empty-email", true, vL("idp_fault", vS(pv.name+"-login"), vS("emails"), vS(label), vI(int64(cb.Status)), vBool(issued), vBool(cb.Hit())))
+				out.Stat("idp_fault_runs", 1)
+				out.Stat("empty_email_runs", 1)
+				if cb.Panic != nil {
+					out.Violation("idp-fault/panic", fmt.Sprintf("request handling panicked on an identity-provider answer: %v", cb.Panic),
+						map[string]interface{}{"provider": pv.name, "kind": label})
+					continue
+				}
+				if issued != (label == "ok") {
+					out.Violation("idp-fault/session-from-failed-profile-lookup", "a session was created although the e-mail lookup it depends on answered without a usable e-mail (or refused although it answered one)",
+						map[string]interface{}{"kind": label, "provider": pv.name, "email_domains": domains, "issued": issued, "status": cb.Status, "emails_body": body, "idp_calls": vCallPaths(e.idp.Calls(""))})
+				}
+				if issued && label != "ok" {
+					// is the e-mail-less session honoured afterwards?
+					r := b.get("/oauth2/userinfo")
+					out.Stat("empty_email_session_replayed", 1)
+					if r.Status == 200 {
+						out.Violation("idp-fault/empty-email-session-honoured", "a session without an e-mail created from a malformed profile answer is honoured on later requests",
+							map[string]interface{}{"provider": pv.name, "kind": label, "userinfo": r.Body})
+					}
+				}
+			}
+		}
+	}
+}
+
+func vCallPaths(cs []vIdPCall) []string {
+	var o []string
+	for _, c := range cs {
+		o = append(o, c.Path)
+	}
+	if len(o) > 12 {
+		o = o[len(o)-12:]
+	}
+	return o
 }
 
 // vC05Legacy: the code-challenge method given through the command-line / config-file options
